@@ -63,6 +63,9 @@ pub struct RefSim<'a> {
     pub sys: &'a TransitionSystem,
     pub state_types: Vec<Type>,
     pub input_types: Vec<Type>,
+    /// wide bit-vector states (> 16 bits) are enumerated over the literals of their width that occur in
+    /// the system (the generator only lets such a state hold literals); None for ordinary states
+    pub tables: Vec<Option<Vec<Val>>>,
 }
 
 #[derive(Clone, Debug)]
@@ -73,15 +76,57 @@ pub struct StepResult {
 
 impl<'a> RefSim<'a> {
     pub fn new(ctx: &'a Context, sys: &'a TransitionSystem) -> Self {
-        RefSim {
-            ctx,
-            sys,
-            state_types: sys.states.iter().map(|s| s.symbol.get_type(ctx)).collect(),
-            input_types: sys.inputs.iter().map(|s| s.get_type(ctx)).collect(),
+        let state_types: Vec<Type> = sys.states.iter().map(|s| s.symbol.get_type(ctx)).collect();
+        let mut tables: Vec<Option<Vec<Val>>> = vec![None; state_types.len()];
+        if state_types.iter().any(|t| matches!(t, Type::BV(w) if *w > 16)) {
+            let mut roots: Vec<ExprRef> = vec![];
+            for st in sys.states.iter() {
+                roots.extend(st.init.iter());
+                roots.extend(st.next.iter());
+            }
+            roots.extend(sys.bad_states.iter());
+            roots.extend(sys.constraints.iter());
+            roots.extend(sys.outputs.iter().map(|o| o.expr));
+            let nodes = refeval::reachable(ctx, &roots);
+            for (k, t) in state_types.iter().enumerate() {
+                if let Type::BV(w) = t {
+                    if *w > 16 {
+                        let mut lits: Vec<Bv> =
+                            nodes.iter().filter_map(|n| refeval::lit_value(ctx, *n)).filter(|b| b.w == *w).collect();
+                        lits.sort_by(|a, b| a.v.cmp(&b.v));
+                        lits.dedup();
+                        if !lits.is_empty() && lits.len() <= 8 {
+                            tables[k] = Some(lits.into_iter().map(Val::Bv).collect());
+                        }
+                    }
+                }
+            }
+        }
+        RefSim { ctx, sys, state_types, input_types: sys.inputs.iter().map(|s| s.get_type(ctx)).collect(), tables }
+    }
+    /// bits of the enumeration code of state k
+    fn code_bits(&self, k: usize) -> u32 {
+        match &self.tables[k] {
+            Some(t) => (usize::BITS - (t.len().max(2) - 1).leading_zeros()).max(1),
+            None => type_bits(self.state_types[k]),
+        }
+    }
+    fn encode_state_value(&self, k: usize, v: &Val) -> u64 {
+        match &self.tables[k] {
+            // a value outside the table would be a generator error; it maps to an unused code so that
+            // decoding fails loudly instead of aliasing another state
+            Some(t) => t.iter().position(|x| x.sem_eq(v)).map(|i| i as u64).unwrap_or((1u64 << self.code_bits(k)) - 1),
+            None => encode_value(v),
+        }
+    }
+    fn decode_state_value(&self, k: usize, code: u64) -> Val {
+        match &self.tables[k] {
+            Some(t) => t.get(code as usize).cloned().unwrap_or_else(|| t[0].clone()),
+            None => decode_value(self.state_types[k], code),
         }
     }
     pub fn state_bits(&self) -> u32 {
-        self.state_types.iter().map(|t| type_bits(*t)).sum()
+        (0..self.state_types.len()).map(|k| self.code_bits(k)).sum()
     }
     pub fn input_bits(&self) -> u32 {
         self.input_types.iter().map(|t| type_bits(*t)).sum()
@@ -150,17 +195,17 @@ impl<'a> RefSim<'a> {
 
     fn encode_state(&self, vals: &[Val]) -> u64 {
         let mut code = 0u64;
-        for (v, t) in vals.iter().zip(self.state_types.iter()).rev() {
-            code = (code << type_bits(*t)) | encode_value(v);
+        for (k, v) in vals.iter().enumerate().rev() {
+            code = (code << self.code_bits(k)) | self.encode_state_value(k, v);
         }
         code
     }
     fn decode_state(&self, mut code: u64) -> Vec<Val> {
         let mut out = vec![];
-        for t in self.state_types.iter() {
-            let b = type_bits(*t);
+        for k in 0..self.state_types.len() {
+            let b = self.code_bits(k);
             let m = if b >= 64 { u64::MAX } else { (1u64 << b) - 1 };
-            out.push(decode_value(*t, code & m));
+            out.push(self.decode_state_value(k, code & m));
             code = if b >= 64 { 0 } else { code >> b };
         }
         out
@@ -178,12 +223,16 @@ impl<'a> RefSim<'a> {
     fn free_combinations(&self, free_idx: &[usize]) -> Vec<Vec<(usize, Val)>> {
         let mut out: Vec<Vec<(usize, Val)>> = vec![vec![]];
         for &k in free_idx {
-            let bits = type_bits(self.state_types[k]);
+            let bits = self.code_bits(k);
+            let n_codes = match &self.tables[k] {
+                Some(t) => t.len() as u64,
+                None => 1u64 << bits,
+            };
             let mut next = vec![];
             for combo in out.iter() {
-                for code in 0..(1u64 << bits) {
+                for code in 0..n_codes {
                     let mut c = combo.clone();
-                    c.push((k, decode_value(self.state_types[k], code)));
+                    c.push((k, self.decode_state_value(k, code)));
                     next.push(c);
                 }
             }
@@ -224,7 +273,7 @@ pub fn reachability(sim: &RefSim) -> Result<Reach, String> {
     let n_bad = sim.sys.bad_states.len();
     let free_init: Vec<usize> = (0..sim.sys.states.len()).filter(|k| sim.sys.states[*k].init.is_none()).collect();
     let free_next: Vec<usize> = (0..sim.sys.states.len()).filter(|k| sim.sys.states[*k].next.is_none()).collect();
-    let zero: Vec<Val> = sim.state_types.iter().map(|t| decode_value(*t, 0)).collect();
+    let zero: Vec<Val> = (0..sim.state_types.len()).map(|k| sim.decode_state_value(k, 0)).collect();
 
     let init_uses_inputs = {
         let roots: Vec<ExprRef> = sim.sys.states.iter().filter_map(|s| s.init).collect();
